@@ -129,7 +129,7 @@ def run_models(rep: Report, tier: str, wd, versions=SUPPORTED):
 
 
 def collect_events(rep: Report, tier: str, wd, pool: Pool, gen_cases, extra_sources=None, with_corpus=True,
-                   replay_limit=None):
+                   replay_limit=None, extra_on_every_worker=False):
     """returns the list of ndjson files"""
     files = []
     jobs = {v: [] for v in pool.versions}
@@ -147,8 +147,16 @@ def collect_events(rep: Report, tier: str, wd, pool: Pool, gen_cases, extra_sour
             jobs[v].append(("decode.units_to_file", {"cases": [{kk: c.get(kk, False) for kk in ("id", "units", "alt", "scope")} for c in ch], "path": f}))
         srcs = [{"id": f"ex:{n}", "src": s, "mode": "exec", "recode": True} for n, s in REPO_EXAMPLES.items()]
         srcs += [{"id": f"sn:{i}", "src": s, "mode": m, "optimize": o, "recode": o == 0} for i, (m, s) in enumerate(SNIPPETS) for o in (0, 2)]
-        if extra_sources:
+        if extra_sources and not extra_on_every_worker:
             srcs += extra_sources.get(v, [])
+        if extra_sources and extra_on_every_worker:
+            # pinned jobs: every worker of the version (each has its own PYTHONHASHSEED) gets every extra source
+            for wi in range(len(pool.workers[v])):
+                for ch in chunks(extra_sources.get(v, []), 300):
+                    k += 1
+                    f = str(wd / f"xsrc-{v}-{k}.ndjson")
+                    files.append(f)
+                    jobs[v].append(("decode.sources_to_file", {"sources": [dict(s_, id=s_["id"] + f"@h{wi}") for s_ in ch], "path": f}, wi))
         if tier == "thorough":
             if not hasattr(rep, "_hypo"):
                 rep._hypo = corpus.hypothesmith_sources(1500, wd)
@@ -178,8 +186,10 @@ def collect_events(rep: Report, tier: str, wd, pool: Pool, gen_cases, extra_sour
 
         def go(wi):
             out = []
-            for j in range(wi, len(jobs[v]), len(ws)):
-                out.append(ws[wi].req(jobs[v][j][0], **jobs[v][j][1]))
+            free = [j for j in jobs[v] if len(j) == 2]
+            mine = [j for j in jobs[v] if len(j) == 3 and j[2] == wi] + free[wi::len(ws)]
+            for j in mine:
+                out.append(ws[wi].req(j[0], **j[1]))
             return out
 
         with ThreadPoolExecutor(max_workers=len(ws)) as ex2:
